@@ -101,3 +101,48 @@ Print Assumptions c10_four_cosets_exactly_one.
 Print Assumptions c10_normalizer_spanned_of_basis.
 Print Assumptions c10_four_cosets_of_counting.
 Print Assumptions c10_candidates.
+
+(* ---- re-exported by tools/reexport.py: statements copied from `Check`, closed by `exact` ---- *)
+From QV Require Import Tensor.CosetSum Tensor.PlanarNet Tensor.CosetNetwork.
+Theorem c10_factor_graph_value : forall (K : cring) (d : dist K) (n : nat) (gens : list bsf) (f : bsf), Forall (fun g : bsf => length g = (n + n)%nat) gens -> length f = (n + n)%nat -> sumt (repeat 2%nat (length gens)) (fun t : list nat => prodl (seq 0 n) (qubit_factor K d n gens f (map nbit t))) = coset_prob K d n gens f.
+Proof. exact factor_graph_value. Qed.
+Theorem c10_coset_prob_as_bond_sum : forall (K : cring) (d : dist K) (n : nat) (gens : list bsf) (f : bsf), sumt (repeat 2%nat (length gens)) (fun t : list nat => prob K d n (xorv f (Span.lincomb (n + n) (map nbit t) gens))) = coset_prob K d n gens f.
+Proof. exact coset_prob_as_bond_sum. Qed.
+Theorem c10_planar_tn_value : forall (K : cring) (d : dist K) (R C : nat), (1 <= R)%nat -> (2 <= C)%nat -> forall (fx fz : nat -> nat -> bool) (g0 : idx -> bool), Net.value R (planar_tn K d R C fx fz) = sumA zz_eqb (PL R C) (fun g : idx -> bool => prodl (QL R C) (siteval K d R C fx fz g)) g0.
+Proof. exact planar_tn_value. Qed.
+Theorem c10_planar_network_value : forall (K : cring) (d : dist K) (rows cols : Z), 2 <= rows -> 2 <= cols -> forall f : bsf, length f = (Planar.planar_n rows cols + Planar.planar_n rows cols)%nat -> Net.value (tn_rows rows) (planar_network K d rows cols f) = coset_prob K d (Planar.planar_n rows cols) (Planar.stabilizers rows cols) f.
+Proof. exact planar_network_value. Qed.
+Theorem c10_planar_network_wf : forall (K : cring) (d : dist K) (rows cols : Z), 2 <= rows -> 2 <= cols -> forall f : bsf, Exact.netwf K (tn_rows rows) (planar_network K d rows cols f).
+Proof. exact planar_network_wf. Qed.
+Theorem c10_planar_network_flat : forall (K : cring) (d : dist K) (rows cols : Z), 2 <= rows -> 2 <= cols -> forall f : bsf, length f = (Planar.planar_n rows cols + Planar.planar_n rows cols)%nat -> Flat.flatval K (planar_network K d rows cols f) (repeat 0%nat (tn_rows rows)) = coset_prob K d (Planar.planar_n rows cols) (Planar.stabilizers rows cols) f.
+Proof. exact planar_network_flat. Qed.
+Theorem c10_planar_network_sweep : forall (K : cring) (d : dist K) (rows cols : Z), 2 <= rows -> 2 <= cols -> forall f : bsf, length f = (Planar.planar_n rows cols + Planar.planar_n rows cols)%nat -> Contract.contract K (planar_network K d rows cols f) None None None None None None = Contract.Ok (Contract.Scalar (coset_prob K d (Planar.planar_n rows cols) (Planar.stabilizers rows cols) f)) /\ Contract.contract K (planar_network K d rows cols f) None None None None (Some 1) None = Contract.Ok (Contract.Scalar (coset_prob K d (Planar.planar_n rows cols) (Planar.stabilizers rows cols) f)) /\ Contract.contract K (planar_network K d rows cols f) None None None None (Some (-1)) None = Contract.Ok (Contract.Scalar (coset_prob K d (Planar.planar_n rows cols) (Planar.stabilizers rows cols) f)).
+Proof. exact planar_network_sweep. Qed.
+Theorem c10_planar_network_split : forall (K : cring) (d : dist K) (rows cols : Z), 2 <= rows -> 2 <= cols -> forall f : bsf, length f = (Planar.planar_n rows cols + Planar.planar_n rows cols)%nat -> forall c : nat, (0 < c < tn_cols cols)%nat -> Contract.split_contract K (planar_network K d rows cols f) None None None (Z.of_nat c) = Contract.Ok (coset_prob K d (Planar.planar_n rows cols) (Planar.stabilizers rows cols) f).
+Proof. exact planar_network_split. Qed.
+Theorem c10_planar_network_transposed : forall (K : cring) (d : dist K) (rows cols : Z), 2 <= rows -> 2 <= cols -> forall f : bsf, length f = (Planar.planar_n rows cols + Planar.planar_n rows cols)%nat -> Net.value (tn_cols cols) (Contract.transpose_net K (tn_rows rows) (planar_network K d rows cols f)) = coset_prob K d (Planar.planar_n rows cols) (Planar.stabilizers rows cols) f.
+Proof. exact planar_network_transposed. Qed.
+Theorem c10_planar_network_transposed_sweep : forall (K : cring) (d : dist K) (rows cols : Z), 2 <= rows -> 2 <= cols -> forall f : bsf, length f = (Planar.planar_n rows cols + Planar.planar_n rows cols)%nat -> Contract.contract K (Contract.transpose_net K (tn_rows rows) (planar_network K d rows cols f)) None None None None None None = Contract.Ok (Contract.Scalar (coset_prob K d (Planar.planar_n rows cols) (Planar.stabilizers rows cols) f)).
+Proof. exact planar_network_transposed_sweep. Qed.
+Theorem c10_planar_network_mixed_split : forall (K : cring) (d : dist K) (rows cols : Z), 2 <= rows -> 2 <= cols -> forall f : bsf, length f = (Planar.planar_n rows cols + Planar.planar_n rows cols)%nat -> Contract.split_contract K (firstn (tn_cols cols - 1) (planar_network K d rows cols f) ++ skipn (tn_cols cols - 1) (planar_network K d rows cols (xorv f (PlanarAll.lxop rows cols)))) None None None (Z.of_nat (tn_cols cols - 1)) = Contract.Ok (coset_prob K d (Planar.planar_n rows cols) (Planar.stabilizers rows cols) (xorv f (PlanarAll.lxop rows cols))).
+Proof. exact planar_network_mixed_split. Qed.
+Theorem c10_planar_network_mixed_split_rows : forall (K : cring) (d : dist K) (rows cols : Z), 2 <= rows -> 2 <= cols -> forall f : bsf, length f = (Planar.planar_n rows cols + Planar.planar_n rows cols)%nat -> Contract.split_contract K (firstn (tn_rows rows - 1) (Contract.transpose_net K (tn_rows rows) (planar_network K d rows cols f)) ++ skipn (tn_rows rows - 1) (Contract.transpose_net K (tn_rows rows) (planar_network K d rows cols (xorv f (PlanarAll.lzop rows cols))))) None None None (Z.of_nat (tn_rows rows - 1)) = Contract.Ok (coset_prob K d (Planar.planar_n rows cols) (Planar.stabilizers rows cols) (xorv f (PlanarAll.lzop rows cols))).
+Proof. exact planar_network_mixed_split_rows. Qed.
+Theorem c10_planar_stabilizers_indep : forall rows cols : Z, 2 <= rows -> 2 <= cols -> indep (Planar.planar_n rows cols + Planar.planar_n rows cols) (Planar.stabilizers rows cols).
+Proof. exact planar_stabilizers_indep. Qed.
+Theorem c10_c10_planar_network : c10_planar_network_statement.
+Proof. exact c10_planar_network. Qed.
+Print Assumptions c10_factor_graph_value.
+Print Assumptions c10_coset_prob_as_bond_sum.
+Print Assumptions c10_planar_tn_value.
+Print Assumptions c10_planar_network_value.
+Print Assumptions c10_planar_network_wf.
+Print Assumptions c10_planar_network_flat.
+Print Assumptions c10_planar_network_sweep.
+Print Assumptions c10_planar_network_split.
+Print Assumptions c10_planar_network_transposed.
+Print Assumptions c10_planar_network_transposed_sweep.
+Print Assumptions c10_planar_network_mixed_split.
+Print Assumptions c10_planar_network_mixed_split_rows.
+Print Assumptions c10_planar_stabilizers_indep.
+Print Assumptions c10_c10_planar_network.
